@@ -104,6 +104,8 @@ def cases() -> Any:
         "validate": st.sampled_from([True, True, True, False]),
         "codec": st.sampled_from(["json", "json", "pickle", "jsonfmt"]),
         "is_async": st.booleans(),
+        # parameter names p0, p1, ... or names the library itself uses for its own arguments / locals on the way to the call
+        "naming": st.sampled_from(["p", "p", "internal"]),
         "shadow": st.sampled_from([False, False, True]),
     })
 
@@ -154,6 +156,9 @@ def convert(ann: str, sent: Any, validate: bool) -> Any:
         return sent
 
 
+INTERNAL_NAMES = ["target", "args", "kwargs", "message", "func", "broker", "loop", "timeout", "result", "labels", "task_id", "context", "exc", "cls"]
+
+
 class QB(AsyncBroker):
     def __init__(self) -> None:
         super().__init__()
@@ -182,7 +187,7 @@ def run_case(c: Dict[str, Any]) -> Outcome:
     names: Dict[int, str] = {}
     plist = []
     for k, p in enumerate(pos + kwo):
-        nm = f"p{k}"
+        nm = f"p{k}" if c.get("naming", "p") == "p" else INTERNAL_NAMES[k % len(INTERNAL_NAMES)]
         names[id(p)] = nm
         a = ANN[p["ann"]]
         if p["dep"] and p.get("dep_passed"):
@@ -311,7 +316,7 @@ def run_case(c: Dict[str, Any]) -> Outcome:
     unann_first = any(pos[i]["ann"] == "none" and not pos[i]["dep"] and any(q["ann"] not in ("none", "Any") for q in pos[i + 1:]) for i in range(len(pos)))
     out.classes = [c["codec"], "validate" if validate else "no_validate"] + [cl for cl, f in (
         ("unannotated_before_annotated", unann_first), ("all_positional", len(args) == len([p for p in pos + kwo if not p["dep"]])),
-        ("has_dependency_param", any(p["dep"] for p in params)), ("has_kwonly", bool(kwo)), ("omitted_default", any(names[id(p)] not in passed and not p["dep"] for p in pos + kwo)),
+        ("has_dependency_param", any(p["dep"] for p in params)), ("has_kwonly", bool(kwo)), ("library_internal_param_names", c.get("naming") == "internal"), ("omitted_default", any(names[id(p)] not in passed and not p["dep"] for p in pos + kwo)),
         ("model_or_dataclass_value", any(isinstance(mkval(p["val"]), (M, D)) for p in params)), ("observable_misbinding", observable), ("same_named_shared_task", bool(c.get("shadow")))) if f]
     out.trace = {"signature": f"def task({sig})", "args": short(args, 200), "kwargs": short(kwargs, 200)}
     return out
